@@ -60,3 +60,8 @@ claim("C07", "model_checking", E1,
       "Open-loop exploration of the real DualAverage / Adam / Strategy::init: all acceptance sequences over a 6-symbol alphabet up to length 6 (7) in lock-step with the published recurrences, every single-entry raise for monotonicity, 729 parameter combinations, constant all-0/all-1 runs of length 2000, and the initial doubling/halving search on Gaussian scales 1e-4..1e4 against one-step acceptances recomputed with the real leapfrog. The closed-loop sentence of the property is statistical and not decided.",
       "Trusted: R-dualavg / R-adam reference recurrences; leapfrog (checked under C02) for the one-step acceptance of the search oracle. One open known finding (no lower clamp: step size underflows to 0 with gamma 0.01).",
       "exhaustive enumeration of acceptance sequences (depth-bounded) against a reference recurrence, pairwise monotonicity check", "4/C07")
+
+claim("C02", "exploration", E1,
+      "Bounded-exhaustive over an explicit alphabet: dimensions {1..64} x three kinetic-energy kinds x diagonal (scales 1e-3..1e3, non-zero mean) and low-rank (ranks 0,1,2,d) transformations x step sizes of both signs x three densities x start points: one real leapfrog step vs an independent dense-matrix reference in the original space (textbook leapfrog / harmonic splitting / closed-form ESH), transformation round trip, gradient pull-back and log-determinant vs dense LU, forward+backward = identity, all {F,B} sequences up to length 4 (path independence), finite-difference Jacobian determinant, energy-error order, exact ExactNormal conservation, re-whitening after a transformation change.",
+      "Trusted: the dense reference (refmodel.rs); values outside the alphabet are not covered; ill-conditioned cases (stiff quartic, saturated ESH update) are counted and only judged by the one-step comparison.",
+      "bounded-exhaustive input enumeration + all short operation sequences against a dense reference model", "4/C02")
